@@ -234,6 +234,37 @@ Exec(M, i) ==
          LET x == RdOp(M, i.a, i.w)
              y == RdOp(M, i.b, i.w)
          IN Adv(WrOp(WrOp(M, i.a, i.w, y, FALSE), i.b, i.w, x, FALSE))
+    [] i.op = "cqo" -> Adv(WrReg(M, "rdx", 8, Val(IF T.r["rax"] < 0 /\ ~T.z["rax"] THEN -1 ELSE 0, FALSE)))
+    [] i.op = "cdq" -> Adv(WrReg(M, "rdx", 4, Val(IF T.r["rax"] < 0 THEN -1 ELSE 0, FALSE)))
+    [] i.op \in {"idiv", "div"} ->
+         (* rdx:rax / operand -> quotient in rax, remainder in rdx.  Modelled for dividends that are the
+            sign- (idiv) or zero- (div) extension of rax, which is what cqo/cdq/`mov $0,%edx` set up. *)
+         LET lo == RdReg(T, "rax", i.w)
+             hi == RdReg(T, "rdx", i.w)
+             dv == RdOp(M, i.a, i.w)
+             n == Num(i.w, lo)
+             m == Num(i.w, dv)
+         IN IF Unrep(i.w, lo) \/ Unrep(i.w, dv) \/ i.w < 4 THEN Fail(M, "range: " \o i.op)
+            ELSE IF m = 0 THEN Fail(M, "division by zero")
+            ELSE IF i.op = "idiv" /\ Num(i.w, hi) # (IF n < 0 THEN -1 ELSE 0) THEN Fail(M, "range: idiv dividend wider than rax")
+            ELSE IF i.op = "div" /\ (Num(i.w, hi) # 0 \/ n < 0 \/ m < 0) THEN Fail(M, "range: div operands outside the modelled range")
+            ELSE Adv(WrReg(WrReg(M, "rax", i.w, Val(TDiv(n, m), FALSE)), "rdx", i.w, Val(TMod(n, m), FALSE)))
+    [] i.op \in {"repstosb", "repmovsb"} ->
+         (* rep stosb / rep movsb (DF = 0) on the thread's PRIVATE stack only: chibicc zero-fills and
+            copies locals with them.  On shared memory they would be many bus transactions: not modelled. *)
+         LET n == T.r["rcx"]
+             dst == T.r["rdi"]
+             src == T.r["rsi"]
+             o == dst - StackBase(T.id)
+             so == src - StackBase(T.id)
+             fill == T.r["rax"] % 256
+         IN IF n < 0 \/ n > Len(T.stk) THEN Fail(M, "range: rep count")
+            ELSE IF n > 0 /\ ~(InStack(T, dst) /\ InStack(T, dst + n - 1)) THEN Fail(M, "rep stos/movs outside the private stack is not modelled")
+            ELSE IF n > 0 /\ i.op = "repmovsb" /\ ~(InStack(T, src) /\ InStack(T, src + n - 1)) THEN Fail(M, "rep movs from outside the private stack is not modelled")
+            ELSE Adv([M EXCEPT !.T.stk = [j \in 1..Len(T.stk) |->
+                                             IF j > o /\ j <= o + n THEN (IF i.op = "repstosb" THEN fill ELSE T.stk[so + (j - o)]) ELSE T.stk[j]],
+                               !.T.r["rcx"] = 0, !.T.r["rdi"] = dst + n,
+                               !.T.r["rsi"] = IF i.op = "repmovsb" THEN src + n ELSE @])
     [] i.op \in {"mfence", "pause"} -> Adv(M)
     [] i.op = "ret" ->
          (* the function's result is rax as a long; then the next repetition starts (Atomic.tla) *)
